@@ -68,6 +68,25 @@ def lenL {α : Type} (xs : List α) : Int := Int.ofNat xs.length
 /-- `make([]T, n)`: `n` zero values -/
 def make {α : Type} [Inhabited α] (n : Int) : List α := List.replicate n.toNat default
 
+/-! ### package `time`
+
+A `time.Time` is the number of nanoseconds since the ZERO time (January 1, year 1 UTC), so the zero value
+is `0` = `default` and every real instant is positive; a `time.Duration` is an `Int` of nanoseconds.
+`Sub` saturates like Go's (±2^63 ns); the monotonic clock reading is not modelled. -/
+
+abbrev Time := Int
+
+def maxDuration : Int := 9223372036854775807
+def minDuration : Int := -9223372036854775808
+
+def time_IsZero (t : Time) : Bool := t == 0
+def time_Before (a b : Time) : Bool := decide (a < b)
+def time_After (a b : Time) : Bool := decide (a > b)
+def time_Equal (a b : Time) : Bool := a == b
+def time_Add (t : Time) (d : Int) : Time := t + d
+def time_Sub (a b : Time) : Int :=
+  if a - b > maxDuration then maxDuration else if a - b < minDuration then minDuration else a - b
+
 /-! ### package `strings` -/
 
 def lowerASCII (c : Char) : Char := if 'A' ≤ c ∧ c ≤ 'Z' then Char.ofNat (c.toNat + 32) else c
